@@ -549,7 +549,9 @@ fn main() {
         let prog = pgen::Gen { rng: &mut rng }.program(depth, decls);
         // every program in two or three styles
         let k0 = rng.below(styles.len() as u64) as usize;
-        for j in 0..(if thorough { 3 } else { 2 }) {
+        let n_styles = if thorough { 3 } else { 2 };
+        let mut every_done = false;
+        for j in 0..n_styles {
             let (sname, st) = &styles[(k0 + j * 2 + (j / 2)) % styles.len()];
             let text = pgen::render(&prog, st.clone(), &mut rng);
             let canon = match canon::canon_ast(&text) {
@@ -570,7 +572,9 @@ fn main() {
             let base = Case { family: format!("gen:{}", sname), name: format!("gen{}", i), src: text, prelude: false };
             cases.push(base.clone());
             // comments in EVERY token gap (one at a time) for a share of the programs, random many for all
-            let every = i % (if thorough { 2 } else { 4 }) == 0 && j == 0;
+            // (in a layout style: the one-line styles mostly exercise the explicit-`in` handling)
+            let every = i % (if thorough { 2 } else { 4 }) == 0 && !every_done && (sname.starts_with("layout") || j + 1 == n_styles);
+            every_done = every_done || every;
             comment_variants(&base, &mut rng, every, if thorough { 4 } else { 2 }, &mut cases);
             perturbations(&base, &mut rng, 2, &mut cases);
         }
